@@ -103,6 +103,8 @@ def byte_level_check(self, rep, workdir):
             fileof_eq += 1
         elif fo:
             fileof_ne += 1
+            if fileof_ne == 1:
+                rep.notes.append(f"(B) byte-level: the model file `BBI.fileOf` is not the written bytes for case {sc.id[3:]} ({fo}); evidence only")
         if ml == "BYTES na":
             na += 1
         elif ml == il:
